@@ -36,6 +36,7 @@ type Engine struct {
 	keyPrefixes map[string]int
 	specErrors  []string
 	siteOrds    map[*ssa.Function]map[ssa.Instruction]string
+	constGlobals map[*ssa.Global]*ssa.Const
 	loadSecs    float64
 	pruneDir    string
 }
@@ -66,7 +67,7 @@ func NewEngine(repoDir, assumedDir string, patterns []string) (*Engine, error) {
 	t0 := time.Now()
 	e := &Engine{repoDir: repoDir, modPath: vipnodeMod, st: NewSortTable(),
 		loops: map[*ssa.Function]map[*ssa.BasicBlock]*loopInfo{}, dbgRefs: map[*ssa.Function]map[string][]*ssa.DebugRef{},
-		globalIDs: map[*ssa.Global]int{}, strLits: map[string]string{}, typeTags: map[string]int{}, measures: map[string][]*measure{}, keyPrefixes: map[string]int{}, siteOrds: map[*ssa.Function]map[ssa.Instruction]string{}}
+		globalIDs: map[*ssa.Global]int{}, strLits: map[string]string{}, typeTags: map[string]int{}, measures: map[string][]*measure{}, keyPrefixes: map[string]int{}, siteOrds: map[*ssa.Function]map[ssa.Instruction]string{}, constGlobals: map[*ssa.Global]*ssa.Const{}}
 	absRepo, _ := filepath.Abs(repoDir)
 	cfg := &packages.Config{
 		Mode:       packages.LoadAllSyntax,
